@@ -2,10 +2,12 @@
 
 mod bufpool;
 mod cancel;
+mod childproto;
 mod fsmodel;
 mod kutil;
 mod lifecycle;
 mod opsmix;
+mod process;
 mod smoke;
 mod streams;
 mod timers;
@@ -30,6 +32,7 @@ fn main() {
     scenarios.extend(fsmodel::scenarios());
     scenarios.extend(lifecycle::scenarios());
     scenarios.extend(opsmix::scenarios());
+    scenarios.extend(process::scenarios());
     scenarios.extend(streams::scenarios());
     scenarios.extend(timers::scenarios());
     simcore::worker::main(&scenarios)
